@@ -158,7 +158,7 @@ void eval_factorization(Ctx &x, int opi, const OpSpec &op, long info, bool check
     if (info != 0) {
         if (info < 0) { add_viol(o, primary_property(c.profile), "info_negative", fmt("info=%ld", info), opi); return; }
         if (info > n) {
-            if (op.x.lwork > 0) { o.excl["caller_workspace_exhausted"]++; return; }
+            if (op.x.lwork > 0) { add_viol(o, "C14", "sufficient_workspace_reported_exhausted", fmt("info=%ld n=%d lwork=%ld: the caller workspace is twice a generous estimate of the need", info, n, op.x.lwork), opi); return; }
             add_viol(o, primary_property(c.profile), "info_gt_n_without_fault", fmt("info=%ld n=%d", info, n), opi); return;
         }
         if (ri.singular) { o.excl["ref_singular"]++; return; }
@@ -297,6 +297,7 @@ void eval_svx(Ctx &x, int opi, const OpSpec &op, const XOut &xo, const std::vect
     if (ri0.singular) { o.excl["ref_singular"]++; return; }
     if (!(info == 0 || info == n + 1)) {
         if (info > 0 && info <= n && ri0.cond1 > 0.1L / eps) { o.excl["ill_conditioned_info_gt0"]++; return; }
+        if (info > n + 1 && op.x.lwork > 0 && c.profile != "alloc" && c.profile != "leak") { add_viol(o, "C14", "sufficient_workspace_reported_exhausted", fmt("info=%ld n=%d lwork=%ld: the caller workspace is twice a generous estimate of the need", info, n, op.x.lwork), opi); return; }
         if (info > n + 1 && op.x.lwork > 0) { o.excl["caller_workspace_exhausted"]++; return; }
         add_viol(o, "C07", "info_not_0_or_n_plus_1", fmt("info=%ld n=%d cond1=%.3Le", info, n, ri0.cond1), opi); return;
     }
